@@ -15,3 +15,9 @@ open WebPkg.C10
 #print axioms bundle_linear_partial
 #print axioms bundle_not_linear
 #print axioms bundle_read_no_panic
+#print axioms skeleton_cbor_exact
+#print axioms skeleton_accepts_certChain
+#print axioms skeleton_accepts_signedSubset
+#print axioms skeleton_accepts_sxg
+#print axioms skeleton_accepts_mice
+#print axioms skeleton_accepts_bundle
